@@ -21,8 +21,8 @@ from simkit.world import World
 PROP = "C08"
 LEVEL = "fault_enumeration"
 TIERS = {
-    "quick": dict(runs=400, timeout=300, fault_budget=14, p_e2e=0.04, e2e_fault_budget=6, pair_budget=2, shrink_seconds=120, shrink_steps=120),
-    "thorough": dict(runs=2500, timeout=900, fault_budget=400, p_e2e=0.1, e2e_fault_budget=40, pair_budget=25, shrink_seconds=400, shrink_steps=400),
+    "quick": dict(runs=400, wall_cap=240, timeout=300, fault_budget=14, p_e2e=0.04, e2e_fault_budget=6, pair_budget=2, shrink_seconds=120, shrink_steps=120),
+    "thorough": dict(runs=2500, wall_cap=2700, timeout=900, fault_budget=400, p_e2e=0.1, e2e_fault_budget=40, pair_budget=25, shrink_seconds=400, shrink_steps=400),
 }
 
 SENTINEL = "SENTINEL: previous content of the output location\n"
